@@ -45,6 +45,7 @@ COMPONENTS = {
 EXPECTED_PROBES = ["empty_partition", "partition_only_inert_rows", "partition_covered_by_box",
                    "step_filter", "step_set_geometry", "step_pack", "step_parquet",
                    "step_parquet_bounds", "step_parquet_geometry", "step_parquet_columns_reordered",
+                   "step_assign_in_place",
                    "query_sjoin", "query_cx",
                    "query_other_geometry_series"]
 
@@ -77,7 +78,7 @@ def gen_steps(rng, frame, tier):
     have_parquet = False
     for _ in range(nsteps):
         op = rng.choice(("filter", "filter", "set_geometry", "select", "persist", "build_sindex",
-                         "pack", "parquet", "parquet"))
+                         "pack", "parquet", "parquet", "assign"))
         if op == "filter":
             steps.append({"op": "filter", "col": "s", "val": rng.choice(("a", "b", "c"))}
                          if rng.random() < 0.6 else
@@ -361,6 +362,20 @@ def _drive(case, root, fs, probes, sig):
             sig.pop("filter_after_lazy_shuffle", None)
             want = Counter(r for s in snaps for r in snap_records(s))
             snaps = _sync(ddf, want, probes, sig, "persist")
+        elif op == "assign":
+            # an ordinary column changed IN PLACE on the same collection object (which has
+            # answered queries before): later queries see the frame as it is now
+            if lazy_shuffle or "v" not in template["other"]:
+                continue
+
+            def assign():
+                ddf["v"] = ddf["v"] + 1000
+            _guard("ddf['v'] = ddf['v'] + 1000", assign, sig)
+            snaps = [dict(s_, other=dict(s_["other"], v=[x + 1000 for x in s_["other"]["v"]]))
+                     for s_ in snaps]
+            probes["step_assign_in_place"] = 1
+            want = Counter(r for s in snaps for r in snap_records(s))
+            snaps = _sync(ddf, want, probes, sig, "assign")
         elif op == "build_sindex":
             ddf = _guard("build_sindex", lambda: ddf.build_sindex(), sig)
             want = Counter(r for s in snaps for r in snap_records(s))
